@@ -4,8 +4,8 @@ from .. import impl, coqrun
 
 MODS = ['Model.Ast', 'Model.Fmt', 'Model.Eval']
 RULE = ('cases = (a) unguarded mixin recursion through cycles of length 1-6 in every shape (direct, through a nested rule, through a nested rule with several selectors or with &-lists (the selector list grows at every level), rulesets used as mixins, '
-        'mixed), (b) guarded recursion of depth limit-4 .. limit+4 and small depths, (c) import cycles of length 1-6 (bare names, ./ prefixes, '
-        'sub-directories, self import) and acyclic chains of depth limit-2 .. limit+3, (d) variable cycles of length 1-6 at top level / in blocks, branching cycles (every variable mentions the next 2 or 3 times, length 1-4) and acyclic branching definitions '
+        'mixed), (b) guarded recursion of depth limit-4 .. limit+4 and small depths, also through a two-selector rule and with 2-5 calls of other mixins before the recursive call, (c) import cycles of length 1-6 (bare names, ./ prefixes, '
+        'sub-directories, self import) and acyclic chains of depth limit-2 .. limit+3, (d) variable cycles of length 1-6 at top level / in blocks, cycles of length 1-3 passed as a mixin argument / used as a default, branching cycles (every variable mentions the next 2 or 3 times, length 1-4) and acyclic branching definitions '
         'and acyclic chains of length limit-4 .. limit+2 (the last family also against the Coq model); every case under a hard wall-clock limit; '
         'expected: CompilationError for runaway references, complete expansion below the limits; distinct = distinct program; non-trivial = cycle length >= 2 or depth within 2 of a limit')
 ASSUMPTIONS = ['wall-clock limit per case: 20 s (a hang or a RecursionError / other escape is a violation)']
@@ -37,6 +37,12 @@ def mixin_cycle(rng, k, shape):
 def guarded_comma(n):
     """guarded recursion through a rule with two selectors: 2^k selectors at level k, complete below the limits"""
     return '.g(@n) when (@n > 0){ w: @n; .a, .b{ .g(@n - 1); } }\n.x{ .g(%d); }\n' % n
+
+
+def guarded_helpers(n, k):
+    """guarded recursion whose body calls k other mixins before it calls itself: still one level per recursion step"""
+    hs = ''.join('.h%d(@i){ w: (@i * %d); }\n' % (j, j + 1) for j in range(k))
+    return hs + '.g(@n) when (@n > 0){ %s .g(@n - 1); }\n.x{ .g(%d); }\n' % (' '.join('.h%d(@n);' % j for j in range(k)), n)
 
 
 def guarded(n, rng):
@@ -100,9 +106,19 @@ def run(ctx):
         cases.append(('guarded recursion', guarded(d, rng), ('ok', d) if d <= LIMIT_MIXIN else 'error', {'depth': d}))
     for d in (1, 2, 4, 7):
         cases.append(('guarded recursion', guarded_comma(d), ('ok', d), {'depth': d}))
+    for d, k in ((5, 2), (20, 3), (33, 2), (40, 4), (LIMIT_MIXIN - 2, 2), (LIMIT_MIXIN - 1, 5)):
+        cases.append(('guarded recursion', guarded_helpers(d, k), ('ok', d * k), {'depth': d}))
     for k in range(1, 7):
         for blk in (False, True):
             cases.append(('variable cycle', var_cycle(k, blk), 'error', {'k': k, 'tree': var_cycle_tree(k, blk)}))
+    # variables defined in terms of each other that reach the output through a mixin argument / a default / a guard operand
+    for k in (1, 2, 3):
+        cyc = ''.join('@c%d: @c%d;\n' % (i, (i + 1) % k) for i in range(k))
+        cases.append(('variable cycle as mixin argument', cyc + '.m(@x){ width: @x; }\n.box{ .m(@c0); }\n', 'error', {'k': max(k, 2)}))
+        cases.append(('variable cycle as mixin argument', cyc + '.m(@x; @y: 2px){ width: @x @y; }\n.box{ .m(@c0); }\n', 'error', {'k': max(k, 2)}))
+        cases.append(('variable cycle as mixin argument', '.m(@x){ width: @x; }\n.box{\n' + cyc + '.m(@c0); }\n', 'error', {'k': max(k, 2)}))
+        cases.append(('variable cycle as mixin argument', cyc + '.m(@x: @c0){ width: @x; }\n.box{ .m(); }\n', 'error', {'k': max(k, 2)}))
+    cases.append(('variable chain as mixin argument', '@a: @b;\n@b: @c;\n@c: 1px;\n.m(@x){ width: @x; }\n.box{ .m(@a); }\n', ('ok1',), {'k': 3}))
     for k in range(1, 5):
         for b in (2, 3):
             for blk in (False, True):
